@@ -371,6 +371,15 @@ func (fv *FnV) evalUnary(st *State, x *ast.UnaryExpr) Val {
 		return fv.arith(st, token.SUB, Val{"0", ty}, v, ty, x)
 	case token.ADD:
 		return fv.eval(st, x.X)
+	case token.XOR:
+		// ^x == -x-1 for signed integers
+		v := fv.eval(st, x.X)
+		ty := fv.typeOf(x)
+		if isIntType(ty) && !isUnsigned(ty) {
+			return Val{fmt.Sprintf("(- (- %s) 1)", v.T), ty}
+		}
+		fv.unsupported(x, "unary ^ on unsigned")
+		return Val{fv.fresh("unk", "Int"), ty}
 	case token.AND:
 		// address-of
 		if cl, ok := ast.Unparen(x.X).(*ast.CompositeLit); ok {
@@ -716,7 +725,7 @@ func (fv *FnV) arith(st *State, op token.Token, a, b Val, ty types.Type, n ast.N
 	if !isIntType(ty) {
 		return Val{t, ty}
 	}
-	if fv.spec {
+	if fv.spec || fv.mathInts {
 		return Val{t, ty}
 	}
 	lo, hi, ok := intRange(ty)
